@@ -20,6 +20,7 @@ bang == 33
 lpar == 40
 rpar == 41
 two == 50
+eqs == 61
 
 W1 == APlus                                  \* /a+/
 W2 == Rgx(RxPlus(Cls(<<a, b>>)))             \* /[ab]+/
@@ -29,7 +30,7 @@ Lam(kind, x) == Py(<<"lam", kind, <<"var", x>>>>)
 
 (* what BODY does with the bound name x *)
 Use(u, x) ==
-    CASE u = "whereeq" -> Where(W2, Lam("eq", x))                 \* like matching tags
+    CASE u = "whereeq" -> Right(Str(<<eqs>>), Where(W2, Lam("eq", x)))     \* like matching tags:  "=" >> (W where == x)
       [] u = "value"   -> Seq2(W2, PyVar(x))
       [] u = "list"    -> Py(<<"lst", << <<"var", x>>, <<"var", x>> >> >>)
       [] u = "apply"   -> Apply(W2, Lam("pair", x))
@@ -37,10 +38,12 @@ Use(u, x) ==
       [] u = "count"   -> Rep(Str(<<b>>), Nm(x), Nm(x))
       [] u = "lengt"   -> Where(W2, Lam("lengt", x))
       [] u = "tmpl"    -> Call("Echo", <<Pos(Ref(x))>>)
-      [] u = "tmplkw"  -> Call("Same", <<Kw("q", Ref(x))>>)
+      [] u = "tmplkw"  -> Right(Str(<<eqs>>), Call("Same", <<Kw("q", Ref(x))>>))
       [] u = "wherene" -> Where(W2, Lam("ne", x))
+         \* the name is mentioned inside a compound argument (which the generator moves into a helper function)
+      [] u = "argwhere" -> Right(Str(<<eqs>>), Call("Id", <<Pos(Where(W2, Lam("eq", x)))>>))
 
-Uses == {"whereeq", "value", "list", "apply", "applyl", "count", "lengt", "tmpl", "tmplkw", "wherene"}
+Uses == {"whereeq", "value", "list", "apply", "applyl", "count", "lengt", "tmpl", "tmplkw", "wherene", "argwhere"}
 
 Src(u, w) == IF u = "count" THEN Wd ELSE w      \* a count needs a number
 
@@ -90,6 +93,8 @@ Start(bf, u, c) ==
       [] c = 4 -> Let("x", Left(W2, Str(<<semi>>)), Bd(bf, u, w, Eps))
          \* the same binding used twice in a sequence (sibling invocations)
       [] c = 5 -> Seq2(Bd(bf, u, w, Str(<<semi>>)), Bd(bf, u, w, Eps))
+         \* a rule whose parameter is shadowed by an inner let, then ANOTHER rule with a parameter of the same name
+      [] c = 6 -> Let("q", w, Seq2(Left(Call("ShA", <<Pos(Ref("q"))>>), Str(<<semi>>)), Call("ShB", <<Pos(Ref("q"))>>)))
 
 RecRule(bf, u) ==
     LET w == Src(u, W1) IN
@@ -102,36 +107,51 @@ Grammar(bf, u, c) ==
                 K |-> KRule(bf, u, Src(u, W1)),
                 T |-> TRule(bf, u),
                 Rec |-> Rule(RecRule(bf, u)),
+                ShA |-> RuleP(<<"x">>, Let("x", Src(u, W2), Use(u, "x"))),
+                ShB |-> RuleP(<<"x">>, Use(u, "x")),
+                Id |-> RuleP(<<"p">>, Ref("p")),
                 Echo |-> RuleP(<<"p">>, Seq2(W2, PyVar("p"))),
                 Same |-> RuleP(<<"q">>, Where(W2, Lam("eq", "q")))],
      ign |-> <<>>, start |-> "start"]
 
-Alpha == <<a, b, semi, bang>>
+Alpha == <<a, b, semi, bang, eqs>>
 Texts == TextSeqUpTo(Alpha, IF Tier = "quick" THEN 4 ELSE 5)
          \o TextSeqUpTo(<<a, b>>, 6)
          \o << <<a, a, b, lpar, a, b, a, rpar, a, a>>, <<a, a, lpar, a, a, rpar, a, a>>,
                <<a, a, lpar, a, b, rpar, a>>, <<a, b, b, semi, a, a, a, semi>>, <<a, b, bang, a, a>>,
-               <<a, a, a, bang>>, <<a, b, semi, a, a, b>>, <<a, a, b, semi, a, a, b, b>> >>
+               <<a, a, a, bang>>, <<a, b, semi, a, a, b>>, <<a, a, b, semi, a, a, b, b>>,
+               <<a, eqs, a, semi, a, a, eqs, a, a>>, <<a, a, eqs, a, a, semi, a, eqs, a>>, <<a, eqs, a, bang, a, eqs, a>>,
+               <<a, a, eqs, a, a, bang>>, <<a, eqs, a, semi, a, eqs, a, semi>>, <<a, eqs, a, lpar, a, a, eqs, a, a, rpar, eqs, a>>,
+               <<a, b, semi, a, eqs, a>>, <<a, eqs, a, semi, a, eqs, b>>, <<a, a, eqs, a>>, <<a, eqs, a, a>> >>
 CountTexts == TextSeqUpTo(<<48, 49, two, b, semi>>, IF Tier = "quick" THEN 4 ELSE 5)
          \o << <<two, b, b, bang>>, <<two, b, b, semi, 49, b, semi>>, <<two, b, bang, 49, b>>,
                <<two, b, lpar, 49, b, rpar, b>>, <<49, lpar, two, b, b, rpar, b>>, <<two, b, b, b, b>> >>
 
-VARIABLES bf, u, c, done
-vars == <<bf, u, c, done>>
+VARIABLES bf, u, c, named, done
+vars == <<bf, u, c, named, done>>
 
-Init == /\ bf \in Binds /\ u \in Uses /\ c \in 0..5
-        /\ (c = 3 => bf = "let")          \* the recursive rule uses the let form
+Init == /\ bf \in Binds /\ u \in Uses /\ c \in 0..6
+        /\ (c \in {3, 6} => bf = "let")     \* the recursive rule and the shadowing rules use the let form
+        /\ named \in {FALSE, TRUE}
+        /\ (named => c \in {0, 6})          \* the named calling convention for the plain and the shadowing contexts
         /\ done = FALSE
 
 Step == /\ ~done
         /\ done' = TRUE
-        /\ UNCHANGED <<bf, u, c>>
-        /\ EmitCase(Grammar(bf, u, c), [prop |-> "C05"], <<"start">>, IF u = "count" THEN CountTexts ELSE Texts)
+        /\ UNCHANGED <<bf, u, c, named>>
+        /\ EmitCase(Grammar(bf, u, c), IF named THEN [prop |-> "C05", name |-> "vg_c05"] ELSE [prop |-> "C05"],
+                    <<"start">>, IF u = "count" THEN CountTexts ELSE Texts)
 
 Next == Step
 
 \* vacuity guard: in every rebinding context some input takes the abandon-and-rebind path
 \* (the first alternative fails after binding and the whole parse still succeeds)
+\* vacuity guard: every (binding, use) pair matches some text of the family in the bare context
+LawUseExercised ==
+    (done /\ c = 0) =>
+    \E k \in 1..Len(IF u = "count" THEN CountTexts ELSE Texts) :
+        EvalEntry(Grammar(bf, u, c), "start", (IF u = "count" THEN CountTexts ELSE Texts)[k], 0).t = "ok"
+
 LawRebindExercised ==
     (done /\ c = 1 /\ u \in {"value", "list"}) =>
     \E k \in 1..Len(Texts) :
